@@ -204,6 +204,12 @@ fn check_layout(out: &[u8], p: u8) {
     assert!(frames <= 1 && ok_positions, "FRAME immediately follows PROTO");
 }
 
+/// deterministic contracts (each call appends b'N'), counters cleared — used by family PURITY
+pub fn head_reset_deterministic(p: u8) {
+    reset_h(true);
+    set_hdr(p);
+}
+
 fn set_hdr(p: u8) {
     unsafe {
         H.hdr = if p >= 2 { 2 } else { 0 };
